@@ -25,6 +25,8 @@ const (
 	PkgGuess     = ModPath + "/decorator/resolver/guess"
 	PkgSimple    = ModPath + "/decorator/resolver/simple"
 	PkgResolver  = ModPath + "/decorator/resolver"
+	PkgGobuild   = ModPath + "/decorator/resolver/gobuild"
+	PkgGopkgs    = ModPath + "/decorator/resolver/gopackages"
 	PkgAstutil   = "golang.org/x/tools/go/ast/astutil"
 )
 
@@ -51,6 +53,7 @@ type Options struct {
 	GOOS    string
 	GOARCH  string
 	Overlay map[string][]byte
+	noCanon bool // second load: names are canonical already
 	// Light loads only the in-scope packages' syntax (NeedDeps types from export data are not
 	// available offline for all deps, so deps are still type-checked from source, but their
 	// syntax is dropped).
@@ -133,6 +136,30 @@ func Load(opt Options) (*Program, error) {
 		pkg := p.All[need]
 		if pkg == nil || pkg.Types == nil || len(pkg.Syntax) == 0 {
 			return nil, fmt.Errorf("package %s not loaded with syntax", need)
+		}
+	}
+	if !opt.noCanon {
+		// unexported declarations of the decorator package that were renamed are read under the
+		// names the rules know (load/canon.go): second load with an overlay
+		if rename, notes := p.discoverRenames(); len(rename) > 0 {
+			if ov := p.canonOverlay(rename); ov != nil {
+				merged := map[string][]byte{}
+				for k, v := range opt.Overlay {
+					merged[k] = v
+				}
+				for k, v := range ov {
+					merged[k] = v
+				}
+				opt2 := opt
+				opt2.Overlay = merged
+				opt2.noCanon = true
+				p2, err := Load(opt2)
+				if err != nil {
+					return nil, fmt.Errorf("second load (canonical names: %s): %w", strings.Join(notes, "; "), err)
+				}
+				Renames = notes
+				return p2, nil
+			}
 		}
 	}
 	return p, nil
